@@ -125,6 +125,16 @@ type RateScenario struct {
 	KeepAlive  bool       `json:"keepalive"`
 	Concurrent bool       `json:"concurrent"`
 	Plan       []PlanItem `json:"plan"`
+	// Trust: trust_proxy_headers is on; the configuration FILE trusts FileCIDRs, the environment override
+	// (OLLA_SERVER_TRUSTED_PROXY_CIDRS) narrows that to EnvCIDRs, the configuration goes through config.Load, and
+	// every request carries its own X-Forwarded-For. The client (127.0.0.1) is outside the effective list, so its
+	// header must not buy it a bucket per request.
+	Trust *TrustCfg `json:"trust,omitempty"`
+}
+
+type TrustCfg struct {
+	FileCIDRs []string `json:"file_cidrs"`
+	EnvCIDRs  []string `json:"env_cidrs,omitempty"`
 }
 
 type RateObs struct {
@@ -152,7 +162,7 @@ func newBackend() *stack.Backend {
 	return b
 }
 
-func startStack(engine string, l Limits, anthropicMax int64) (*stack.Stack, *stack.Backend, error) {
+func startStack(engine string, l Limits, anthropicMax int64, trust ...*TrustCfg) (*stack.Stack, *stack.Backend, error) {
 	if engine == "" {
 		engine = "sherpa"
 	}
@@ -160,18 +170,32 @@ func startStack(engine string, l Limits, anthropicMax int64) (*stack.Stack, *sta
 	var s *stack.Stack
 	var err error
 	for try := 0; try < 4; try++ {
-		s, err = stack.Start(stack.Opts{Engine: engine, Balancer: "priority", ModelDiscovery: true,
-			EPs: []stack.EP{{Name: "A", Type: "openai", Priority: 100, Backend: b}},
-			Mutate: func(c *config.Config) {
-				c.Server.RateLimits.GlobalRequestsPerMinute = l.Global
-				c.Server.RateLimits.PerIPRequestsPerMinute = l.PerIP
-				c.Server.RateLimits.HealthRequestsPerMinute = l.Health
-				c.Server.RateLimits.BurstSize = l.Burst
-				c.Server.RequestLimits.MaxBodySize = l.MaxBody
-				if anthropicMax > 0 {
-					c.Translators.Anthropic.MaxMessageSize = anthropicMax
-				}
-			}})
+		opts := stack.Opts{Engine: engine, Balancer: "priority", ModelDiscovery: true,
+			EPs: []stack.EP{{Name: "A", Type: "openai", Priority: 100, Backend: b}}}
+		var tc *TrustCfg
+		if len(trust) > 0 && trust[0] != nil {
+			tc = trust[0]
+			opts.Load = true
+			if len(tc.EnvCIDRs) > 0 {
+				opts.Env = map[string]string{"OLLA_SERVER_TRUSTED_PROXY_CIDRS": strings.Join(tc.EnvCIDRs, ",")}
+			}
+		}
+		opts.Mutate = func(c *config.Config) {
+			if tc != nil {
+				c.Server.RateLimits.TrustProxyHeaders = true
+				c.Server.RateLimits.TrustedProxyCIDRs = tc.FileCIDRs
+				c.Server.RateLimits.TrustedProxyCIDRsParsed = nil
+			}
+			c.Server.RateLimits.GlobalRequestsPerMinute = l.Global
+			c.Server.RateLimits.PerIPRequestsPerMinute = l.PerIP
+			c.Server.RateLimits.HealthRequestsPerMinute = l.Health
+			c.Server.RateLimits.BurstSize = l.Burst
+			c.Server.RequestLimits.MaxBodySize = l.MaxBody
+			if anthropicMax > 0 {
+				c.Translators.Anthropic.MaxMessageSize = anthropicMax
+			}
+		}
+		s, err = stack.Start(opts)
 		if err != nil {
 			continue
 		}
@@ -263,7 +287,7 @@ func (k *kaConn) roundTrip(raw []byte, start time.Time, o *RateObs) {
 }
 
 func runRate(sc *RateScenario) (obs []RateObs, backendSaw int, startErr string) {
-	s, b, err := startStack(sc.Engine, sc.Lim, 0)
+	s, b, err := startStack(sc.Engine, sc.Lim, 0, sc.Trust)
 	if err != nil {
 		return nil, 0, err.Error()
 	}
@@ -301,7 +325,11 @@ func runRate(sc *RateScenario) (obs []RateObs, backendSaw int, startErr string) 
 			}
 			defer k.c.Close()
 		}
-		k.roundTrip(routeReq(p.Route, sc.KeepAlive), start, &obs[i])
+		rq := routeReq(p.Route, sc.KeepAlive)
+		if sc.Trust != nil { // a different forwarded-for on every request
+			rq = bytes.Replace(rq, []byte("\r\nHost: olla\r\n"), []byte(fmt.Sprintf("\r\nHost: olla\r\nX-Forwarded-For: 203.0.113.%d\r\nX-Real-IP: 198.51.100.%d\r\n", 1+i%250, 1+i%250)), 1)
+		}
+		k.roundTrip(rq, start, &obs[i])
 		if obs[i].Err != "" && sc.KeepAlive {
 			k.c.Close()
 			cmu.Lock()
@@ -571,6 +599,21 @@ func main() {
 			&RateScenario{Lim: Limits{0, 1, 0, 1, 0}, Conns: 1, KeepAlive: true, Plan: []PlanItem{{0, "anthropic"}, {0, "anthropic"}, {0, "anthropic"}, {0, "anthropic"}}},  // translator route
 			&RateScenario{Lim: Limits{0, 2, 1, 2, 0}, Conns: 1, KeepAlive: true, Plan: []PlanItem{{0, "health"}, {0, "health"}, {0, "proxy"}, {0, "health"}, {0, "proxy"}, {0, "proxy"}}},
 		)
+		// a client outside the trusted proxies puts a different X-Forwarded-For on every request; the configuration
+		// is read by config.Load from a file, with and without an environment override that narrows the trusted list
+		for _, engine := range []string{"sherpa", "olla"} {
+			for _, tc := range []*TrustCfg{
+				{FileCIDRs: []string{"10.0.0.0/8"}},
+				{FileCIDRs: []string{"127.0.0.0/8", "10.0.0.0/8"}, EnvCIDRs: []string{"10.0.0.0/8"}},
+				{FileCIDRs: []string{"0.0.0.0/0"}, EnvCIDRs: []string{"192.168.0.0/16", "172.16.0.0/12"}},
+			} {
+				var plan []PlanItem
+				for i := 0; i < 8; i++ {
+					plan = append(plan, PlanItem{i % 3, vlib.Pick(r, []string{"proxy", "provider", "proxy"})})
+				}
+				rates = append(rates, &RateScenario{Engine: engine, Lim: Limits{0, 2, 0, 2, 0}, Conns: 3, KeepAlive: true, Plan: plan, Trust: tc})
+			}
+		}
 		grid := []Limits{{0, 2, 0, 2, 0}, {0, 1, 0, 1, 0}, {0, 3, 0, 2, 0}, {0, 6, 0, 3, 0}, {0, 2, 0, 5, 0}, {3, 2, 0, 2, 0}, {2, 5, 0, 1, 0}, {4, 0, 0, 2, 0}, {0, 4, 1, 2, 0}}
 		mixes := [][]string{{"proxy"}, {"proxy", "provider"}, {"proxy", "provider", "health"}, {"anthropic"}, {"proxy", "anthropic", "provider"}}
 		for _, l := range grid {
